@@ -176,7 +176,7 @@ impl MT940 {
     /// Get first two characters of a currency code
     fn get_currency_prefix(currency: &str) -> &str {
         if currency.len() >= 2 {
-            &currency[0..2]
+            currency.get(0..2).unwrap_or(currency)
         } else {
             currency
         }
